@@ -43,7 +43,7 @@ def floors(tier):
             "path:sequential": 10 if q else 100, "path:parallel": 6 if q else 60, "workers_killed": 10 if q else 200, "reported_cycles_verified": 20 if q else 300,
             "timeout:0": 3, "timeout:1": 3, "timeout:2": 3, "timeout:-1": 3, "timeout:120": 3, "no_child_left_checked": 30 if q else 300,
             "monitor:clock_polls": 30, "tp_cp_compared": 30 if q else 300, "virtual_strikes": 40 if q else 600,
-            "completeness_checked_by_own_enumeration": 15 if q else 200, "structured_report_compared": 30 if q else 300, "parent_pauses_checked": 20 if q else 200, "untimed_after_cut_short": 3 if q else 30}
+            "completeness_checked_by_own_enumeration": 15 if q else 200, "structured_report_compared": 30 if q else 300, "parent_pauses_checked": 20 if q else 200, "untimed_after_cut_short": 3 if q else 30, "runs_with_sigterm_ignored": 4 if q else 40}
 
 
 def plan(tier, seed):
@@ -81,8 +81,10 @@ class Probes:
         self.first_path = None
         self.last_path = None
         self.instances = []
+        self.term_toggle = 0
         probe = self
-        real_time, real_os = kernel_dg.time, kernel_dg.os
+        # the module need not use os at all (workers may be stopped through the Process API): wrap it only if it is there
+        real_time, real_os = kernel_dg.time, getattr(kernel_dg, "os", None)
 
         class TimeProxy:
             def time(self_):
@@ -119,9 +121,10 @@ class Probes:
             def __getattr__(self_, n):
                 return getattr(real_os, n)
 
-        self._saved = (kernel_dg.time, kernel_dg.os, kernel_dg.Process, nx.algorithms.simple_paths.all_simple_paths, o.KernelDG)
+        self._saved = (kernel_dg.time, real_os, kernel_dg.Process, nx.algorithms.simple_paths.all_simple_paths, o.KernelDG)
         kernel_dg.time = TimeProxy()
-        kernel_dg.os = OsProxy()
+        if real_os is not None:
+            kernel_dg.os = OsProxy()
         RealProcess = kernel_dg.Process
 
         class ProcessProxy(RealProcess):
@@ -135,6 +138,14 @@ class Probes:
                 r = RealProcess.join(self_, *a)
                 probe.events.append(("join", self_.pid))
                 return r
+
+            def terminate(self_):
+                probe.events.append(("kill", self_.pid))
+                return RealProcess.terminate(self_)
+
+            def kill(self_):
+                probe.events.append(("kill", self_.pid))
+                return RealProcess.kill(self_)
 
         kernel_dg.Process = ProcessProxy
         real_asp = nx.algorithms.simple_paths.all_simple_paths
@@ -194,7 +205,9 @@ class Probes:
         self.deadline = None if timeout < 0 else time.time() + ((3 * timeout + ABORT_MARGIN) if not self.virtual else 120)
 
     def close(self):
-        self.kd.time, self.kd.os, self.kd.Process, self.nx.algorithms.simple_paths.all_simple_paths, self.o.KernelDG = self._saved
+        self.kd.time, saved_os, self.kd.Process, self.nx.algorithms.simple_paths.all_simple_paths, self.o.KernelDG = self._saved
+        if saved_os is not None:
+            self.kd.os = saved_os
         if self._own is not None:
             self.kd.KernelDG._simple_paths = self._own
 
@@ -353,6 +366,13 @@ def one_run(probes, arch, fn, timeout, R, case, reference=None, expect_complete=
             raise SearchNotStopped("still waiting for searching worker processes %.1fs after the analysis started" % (time.time() - t0))
         raise CaseTimeout()
 
+    # every other cut-short run of the multi-process search happens in a process that ignores SIGTERM (a job script with
+    # "trap '' TERM", an application with its own shutdown handling): workers inherit that, they must be stopped all the same
+    ign_term = None
+    if timeout >= 0 and case.get("path") == "parallel" and not probes.virtual and (probes.term_toggle % 2 == 0):
+        ign_term = signal.signal(signal.SIGTERM, signal.SIG_IGN)
+        R.count("runs_with_sigterm_ignored")
+    probes.term_toggle += 1
     if timeout >= 0:
         old = signal.signal(signal.SIGALRM, on_alarm)
         signal.setitimer(signal.ITIMER_REAL, (3 * timeout + ABORT_MARGIN) if not probes.virtual else 120)
@@ -377,6 +397,8 @@ def one_run(probes, arch, fn, timeout, R, case, reference=None, expect_complete=
         if timeout >= 0:
             signal.setitimer(signal.ITIMER_REAL, 0)
             signal.signal(signal.SIGALRM, old)
+        if ign_term is not None:
+            signal.signal(signal.SIGTERM, ign_term)
     wall = time.time() - t0
     R.count("timeout:%s" % (timeout if timeout in (-1, 0, 1, 2, 120) else "virtual"))
     R.count("monitor:clock_polls", probes.clock_polls)
